@@ -1,9 +1,185 @@
-"""Coq / translator part of C07 (stub, replaced below)."""
+"""Coq / translator part of C07: T4 (translate/savebuf.py) -> coq/Gen/SaveBufGen.v, obligations,
+validation of the generated constants against the compiled code, tie of CalFile/NumText.v's text
+length model to glibc, and the search for an overflowing precision when cal_buffers_fit breaks."""
 import os
+import re
+
+import vplib
 import savebuf
+import calfile_lib as L
+
 DEFAULTS = (6, 7)
+VFILES = ["CalFile/NumTextProofs.v", "CalFile/CalFileProofs.v", "CalFile/SaveBufFacts.v", "Properties_C07.v"]
+
+
+def py_accepts(setter, p):
+    lo, hi = setter
+    return p >= lo and (hi is None or p <= hi)
+
+
+def max_text(items, p):
+    n = 0
+    for it in items:
+        if it == "FLit":
+            n += 1
+        elif it == "FD":
+            n += 11
+        elif it.startswith("(FE"):
+            n += 7 if p <= 1 else p + 7
+        else:
+            n += 24
+    return n
+
+
+def py_first_unfit(info, which, limit=2000):
+    """Smallest accepted precision whose longest text overflows (python mirror of NumText.first_unfit)."""
+    a = info["adders"]["add_double" if which == "f" else "add_complex"]
+    for p in list(range(1, limit)) + [2 ** 31 - 1]:
+        if not py_accepts(info["setters"][which], p):
+            continue
+        fmt = a["fmt_max"] if (a["fmt_max"] is not None and p == info["maxp"]) else a["fmt_dec"]
+        if max_text(fmt, p) + 1 > a["coef"] * max(p, 1) + a["const"]:
+            return p
+    return None
+
+
 def run(ctx):
     global DEFAULTS
-    info = savebuf.translate(os.path.join(ctx.repo, "src"))
-    DEFAULTS = (info["defaults"]["f"], info["defaults"]["d"])
+    src = os.path.join(ctx.repo, "src")
+    info = None
+    try:
+        info = savebuf.translate(src)
+        ctx.obligation("T4:savebuf translate", True)
+    except savebuf.TranslateError as e:
+        ctx.obligation("T4:savebuf translate", False, str(e))
+        ctx.log("T4: vnacal_save.c / setters no longer match the accepted idiom:", e)
+    exe = ctx.build_harness("calfile_harness", san=True, wrap=True)
+    abi = None
+    rc, out, err = vplib.sh([exe, "-"], input="case 0\nabi\n", timeout=60, env=ctx.run_env())
+    m = re.search(r"abi int=(\d+) double=(\d+) complex=(\d+) maxp=(\d+) deff=(\d+) defd=(\d+) acceptf(.*) acceptd(.*)", out)
+    if m:
+        abi = {"int": int(m.group(1)), "double": int(m.group(2)), "double complex": int(m.group(3)), "maxp": int(m.group(4)),
+               "deff": int(m.group(5)), "defd": int(m.group(6)),
+               "f": {int(a): b == "1" for a, b in (x.split(":") for x in m.group(7).split())},
+               "d": {int(a): b == "1" for a, b in (x.split(":") for x in m.group(8).split())}}
+        DEFAULTS = (abi["deff"], abi["defd"])
+    else:
+        ctx.obligation("tie:T4 constants", False, "harness abi probe failed: %s" % err[-200:])
+    coq_ok = False
+    if info is not None:
+        ctx.write_if_changed(os.path.join(vplib.COQDIR, "Gen", "SaveBufGen.v"), savebuf.emit(info))
+        coq_ok, res = ctx.coq_obligations(VFILES)
+        # translator output against the compiled code
+        if abi:
+            bad = []
+            for k in ("int", "double", "double complex"):
+                if savebuf.SIZEOF[k] != abi[k]:
+                    bad.append("sizeof(%s) = %d, translator assumes %d" % (k, abi[k], savebuf.SIZEOF[k]))
+            if info["maxp"] != abi["maxp"]:
+                bad.append("VNACAL_MAX_PRECISION %d vs %d" % (info["maxp"], abi["maxp"]))
+            if (info["defaults"]["f"], info["defaults"]["d"]) != (abi["deff"], abi["defd"]):
+                bad.append("default precisions %r vs compiled %r" % (info["defaults"], (abi["deff"], abi["defd"])))
+            for w in "fd":
+                for p, acc in sorted(abi[w].items()):
+                    if py_accepts(info["setters"][w], p) != acc:
+                        bad.append("vnacal_set_%sprecision(%d): compiled code %s, translated setter %s"
+                                   % (w, p, "accepts" if acc else "rejects", "accepts" if not acc else "rejects"))
+            ctx.obligation("tie:T4 constants", not bad, "; ".join(bad[:4]))
+            ctx.count(("T4", tuple(sorted(abi["f"].items())), abi["maxp"]))
+    # text length model of NumText.v against glibc
+    numtext_tie(ctx, exe)
+    if info is not None and not coq_ok:
+        search_overflow(ctx, info, exe)
+    elif info is None:
+        search_overflow(ctx, None, exe)
+    ctx.trusted_base += [
+        "Coq 8.16.1 kernel; vm_compute for the bounded emit/parse theorem and the examples; no native_compute",
+        "axioms: none (Print Assumptions: Closed under the global context for every theorem of Properties_C07.v)",
+        "translator translate/savebuf.py (C text -> coq/Gen/SaveBufGen.v), validated against the compiled code (sizeof, VNACAL_MAX_PRECISION, defaults, setter probes)",
+        "CalFile/NumText.v: shapes of C99 %e/%a/%d output (glibc's conformance is exercised by the length tie, not proved)",
+    ]
+    ctx.assumptions += ["the longest %.*e text of a finite double has a sign, one digit, a point, p-1 digits, 'e', a sign and three exponent digits",
+                        "int is 32 bits, double is binary64 (checked against the compiled harness)"]
     return DEFAULTS
+
+
+def numtext_tie(ctx, exe):
+    rng = ctx.rng
+    vals = [0.0, -0.0, 1.0, -1.5, 9.999999e99, 1e100, -1e-100, 5e-324, -1.7976931348623157e308, 2.2250738585072014e-308, 123456.789, -9.5e-10]
+    vals += [rng.uniform(-1, 1) * 10.0 ** rng.randint(-320, 308) for _ in range(30)]
+    precs = [1, 2, 3, 6, 7, 17, 25, 26, 27, 40, 100, 999]
+    cases = [(rng.choice(precs), v) for v in vals] + [(p, -1.25e-300) for p in precs]
+    script = "case 0\n" + "".join("fmt %d %s\n" % (p, float.hex(v)) for p, v in cases)
+    rc, out, err = vplib.sh([exe, "-"], input=script, timeout=60, env=ctx.run_env())
+    texts = [(L.unhex(a).decode(), L.unhex(b).decode()) for a, b in
+             (ln.split()[1:3] for ln in out.split("\n") if ln.startswith("fmt "))]
+    if len(texts) != len(cases):
+        ctx.obligation("tie:NumText lengths", False, "harness fmt op failed: %s" % err[-200:])
+        return
+    body = ["Require Import ZArith List Bool.", "Require Import LV.CalFile.NumText.", "Open Scope Z_scope."]
+    exp = []
+    for (p, v), (te, ta) in zip(cases, texts):
+        m = re.match(r"^(-?)\d(?:\.(\d+))?e[+-](\d+)$", te)
+        if not m or (len(m.group(2) or "") != p - 1):
+            ctx.obligation("tie:NumText lengths", False, "text %r of %r at precision %d does not have the modelled shape" % (te, v, p))
+            return
+        body.append("Eval vm_compute in (len_e false %d (EFinite %s %s), len_e true %d (EFinite %s %s), max_e %d)."
+                    % (p, "true" if m.group(1) else "false", "true" if len(m.group(3)) == 3 else "false",
+                       p, "true" if m.group(1) else "false", "true" if len(m.group(3)) == 3 else "false", p))
+        exp.append((len(te), len(te) + (0 if m.group(1) else 1)))
+        ma = re.match(r"^(-?)0x[01](?:\.([0-9a-f]+))?p[+-](\d+)$", ta)
+        if not ma:
+            ctx.obligation("tie:NumText lengths", False, "%%a text %r does not have the modelled shape" % ta)
+            return
+        body.append("Eval vm_compute in (len_a false (AFinite %s %d %d))." % ("true" if ma.group(1) else "false", len(ma.group(2) or ""), len(ma.group(3))))
+        exp.append((len(ta),))
+    rc, out, err = ctx.coq_eval("numtext_tie", "\n".join(body) + "\n")
+    got = re.findall(r"=\s*\(?([0-9, ]+)\)?\s*:", out)
+    bad = []
+    if rc != 0 or len(got) != len(exp):
+        ctx.obligation("tie:NumText lengths", False, "coq evaluation failed: %s" % (err[-200:] or out[-200:]))
+        return
+    for e, g, k in zip(exp, got, range(len(exp))):
+        gv = [int(x) for x in g.replace(" ", "").split(",")]
+        if gv[:len(e)] != list(e):
+            bad.append("case %d: glibc lengths %r, model %r" % (k, e, gv))
+        if len(gv) == 3 and gv[0] > gv[2]:
+            bad.append("case %d: length %d above max_e %d" % (k, gv[0], gv[2]))
+        ctx.count(("numtext", k, tuple(gv)))
+    ctx.obligation("tie:NumText lengths", not bad, "; ".join(bad[:3]))
+    ctx.traces_validated += len(exp)
+
+
+def search_overflow(ctx, info, exe):
+    """cal_buffers_fit no longer checks: look for a precision the setters accept that overruns a buffer."""
+    cands = []
+    if info is not None:
+        for w in "fd":
+            p = py_first_unfit(info, w)
+            if p is not None:
+                cands.append((w, p))
+    if not cands:
+        cands = [("f", p) for p in (27, 28, 40, 999, 1000, 1001, 5000)] + [("d", p) for p in (26, 27, 40, 999, 1001, 5000)]
+    d = ctx.tmp
+    src = os.path.join(d, "ovf_in.vnacal")
+    cal = {"name": "x", "type": "T8", "rows": 1, "cols": 1, "F": 1, "z0": complex(-50.0, -1.0), "fvec": [1.5e300],
+           "terms": [[complex(-1.5e-300, -2.5e-300)]] * 4, "props": None}
+    with open(src, "w") as f:
+        f.write(L.write_vnacal([cal], None))
+    script = []
+    for k, (w, p) in enumerate(cands):
+        script += ["case %d" % k, "load 0 %s" % src, "set%sp 0 %d" % (w, p), "save 0 %s" % os.path.join(d, "ovf_out.vnacal"), "free 0"]
+    res = L.run_script(ctx, exe, "\n".join(script) + "\n", len(cands), timeout=300)
+    found = False
+    for k, (w, p) in enumerate(cands):
+        cr = res.get(k)
+        if cr is not None and cr.crash:
+            sig = dict(cr.crash[2])
+            ctx.violation(sig, "vnacal_save overruns its number buffer with %sprecision = %d (accepted by the setter): %s in %s"
+                          % (w, p, sig.get("error"), sig.get("function")),
+                          {"how": "harness/calfile_harness.c: load; set%sp %d; save" % (w, p), "file": open(src).read(), "stderr": cr.crash[1][-2500:],
+                           "theorem": "cal_buffers_fit"})
+            found = True
+    if not found:
+        ctx.unproved("cal_buffers_fit / T4", "the Coq development of C07 or its translator no longer checks",
+                     "vnacal_save at the precisions %r under ASan" % (cands,))
